@@ -69,6 +69,17 @@ def gen_api_desc(rng, nasty_attrs):
             for c in L["caps"]:
                 if rng.random() < 0.5:
                     c["style"] = {"class": rng.choice(names)}
+    if rng.random() < 0.15:
+        # a class that names no style of the set but is spelled like an id the writer hands out to a region
+        for L in d["langs"]:
+            for c in L["caps"]:
+                if rng.random() < 0.5:
+                    c["style"] = dict(c.get("style") or {}, **{"class": rng.choice(["bottom", "r0", "r1", "nosuch"])})
+                for n in c["nodes"]:
+                    if n[0] == "S" and n[1] and rng.random() < 0.4:
+                        n[2] = dict(n[2], **{"class": rng.choice(["bottom", "r0", "r1"])})
+        for gone in ("bottom", "r0", "r1", "nosuch"):
+            d["styles"].pop(gone, None)
     if nasty_attrs:
         k = rng.random()
         if k < 0.35:
